@@ -215,6 +215,7 @@ func (r runner[K]) bfs(deadline time.Time) drv.Result {
 		for _, o := range ops {
 			next := append(append([]op{}, hist...), o)
 			res.Transitions++
+			drv.Tick()
 			c, msg := r.check(next)
 			if msg != "" {
 				var hs []string
